@@ -373,9 +373,9 @@ func init() {
 		explain: "every indicator and strategy pipeline (and the Report pipelines, and the vote combinators over stub strategies) is executed with one producer goroutine per input (channel capacity a grid parameter), one independent reader per output; on every data path the run must end with all outputs closed and no goroutine left (outcome done; deadlock / leak / panic are violations with a native replay); the executor logs every channel operation, close, go, WaitGroup operation and shared-memory access with the Go-memory-model edges and the solver (QF_IDL) shows that no conflicting pair can be reordered: the outcome and all values then hold for every interleaving, GOMAXPROCS and pacing (first-divergence lemma, DESIGN.md 2.6)",
 		bounds: func(t string) string {
 			if t == "thorough" {
-				return indBoundsT + "; n in {0,1,w-1,w,w+1,w+2,w+3}; input capacity 0,1,2,5; unequal input lengths n-1/n/n+1 for multi-input indicators; strategies: " + stratBounds + " incl. default configurations; combinators over 2-3 stubs emitting n-1/n/n+1 actions; one @zeroden1 case (n = w+2: one division per path may have a zero denominator, the value is then the IEEE special) per non-heavy indicator / strategy"
+				return indBoundsT + "; n in {0,1,w-1,w,w+1,w+2,w+3}; input capacity 0,1,2,5; unequal input lengths n-1/n/n+1 for multi-input indicators; strategies: " + stratBounds + " incl. default configurations; combinators over 2-3 stubs emitting n-1/n/n+1 actions; one @zeroden1 case (n = w+2: one division per path may have a zero denominator, the value is then the IEEE special) per non-heavy indicator / strategy; one late-producer case (pipeline assembled before any producer exists) per indicator / strategy configuration; for the widely separated periods also input capacities maxPeriod-1 and maxPeriod-3"
 			}
-			return indBoundsQ + "; n in {0,1,w,w+1,w+2}; input capacity 0,1,2; unequal input lengths for multi-input indicators; strategies: " + stratBounds + "; combinators over 2 stubs emitting n-1/n/n+1 actions; one @zeroden1 case (n = w+2: one division per path may have a zero denominator, the value is then the IEEE special) per non-heavy indicator / strategy"
+			return indBoundsQ + "; n in {0,1,w,w+1,w+2}; input capacity 0,1,2; unequal input lengths for multi-input indicators; strategies: " + stratBounds + "; combinators over 2 stubs emitting n-1/n/n+1 actions; one @zeroden1 case (n = w+2: one division per path may have a zero denominator, the value is then the IEEE special) per non-heavy indicator / strategy; one late-producer case (pipeline assembled before any producer exists) per indicator / strategy configuration; for the widely separated periods also input capacities maxPeriod-1 and maxPeriod-3"
 		},
 		outside:     "consumers that abandon an output (the property presupposes draining); select/len(chan) (absent from the module, re-checked on every run: coverage.module_has_select); larger configurations",
 		assumptions: append([]string{realModeNote, "lemma: a maximal execution without unordered conflicting pair determines every other execution (DPOR/Kahn first divergence); memory model edges: program order, go->start, send->receive, k-th receive -> (k+cap)-th send, close->receive-of-closed, Done->Wait, Unlock->Lock"}, commonAssumptions...),
@@ -403,12 +403,33 @@ func init() {
 						c.MaxWallS = 120
 						add(c)
 					}
+					// input capacities just below the largest period: internal buffers are
+					// derived from cap(c), so "enough room already" shortcuts show up there
+					big := cfg[0]
+					for _, p := range cfg[1:] {
+						if p > big {
+							big = p
+						}
+					}
+					for _, cp := range []int{big - 1, big - 3} {
+						if cp < 3 {
+							continue
+						}
+						c := csi("H_C03", s, cfg, w+6, cp, 0)
+						c.SkipReach = true
+						c.MaxWallS = 120
+						add(c)
+					}
 				}
 				mp, _ := s.lim(o)
 				for ci, cfg := range s.configs(mp) {
 					w, ok := pr.idle(s.name, cfg)
 					if !ok {
 						continue
+					}
+					if ci == 0 {
+						// the pipeline assembled before any producer exists
+						add(csi("H_C03_Late", s, cfg, w+1))
 					}
 					if ci == 0 && !s.heavy {
 						// the same pipeline when one executed division has a zero denominator (NaN / Inf values)
@@ -469,6 +490,7 @@ func init() {
 							add(css("H_C03S", s, cfg, 0, n, c))
 						}
 					}
+					add(css("H_C03S_Late", s, cfg, w+1))
 					add(css("H_C03S_Report", s, cfg, w+1, 0))
 					if !s.heavy {
 						add(css("H_C03S_Report", s, cfg, w+2, 1))
@@ -498,7 +520,7 @@ func init() {
 			}
 			return indBoundsQ + " (reuse with n = w+1 then w+2; concurrent calls with n = w+1); strategies: " + stratBounds
 		},
-		outside:     "more than two calls, Report reuse, backtest.Backtest and helper.Csv (covered by C13 / C19)",
+		outside:     "more than two calls, Report reuse, backtest.Backtest (covered by C13); helper.Csv only for sequential reuse across documents with different headers (H_C09_Csv, over the virtual file system of C10)",
 		assumptions: append([]string{realModeNote, "a data race is an unordered pair of accesses to one memory slot by two goroutines, at least one a write (Go memory model); replay of a race: native run under -race"}, commonAssumptions...),
 		cases: func(tier string, pr *prober) []sym.CaseSpec {
 			o := indOpts(tier)
@@ -525,6 +547,10 @@ func init() {
 				}
 			}
 			out = append(out, decoReuseCases(tier)...)
+			// a helper.Csv value reused for documents with different header rows
+			for v := 0; v <= 3; v++ {
+				out = append(out, cs("H_C09_Csv", v))
+			}
 			for _, s := range stratSpecs {
 				for i, cfg := range s.cfgs {
 					if i > 0 && tier != "thorough" {
